@@ -306,9 +306,9 @@ func TestVerifC11Trie(t *testing.T) {
 	maxBig := 3000
 	bigEvery := 40
 	if VThorough() {
-		cases = 800
+		cases = 1600
 		maxBig = 60000 // a geosite-scale suffix set is ~50 000 patterns = ~100 000 keys; five such tries
-		bigEvery = 160
+		bigEvery = 320
 	}
 	for n := 0; n < cases; n++ {
 		alphaTag, alpha := "d", c11DomAlpha
